@@ -208,6 +208,61 @@ def docJson (d : Doc Rat) : Json :=
 namespace Stv
 open VL.StvFile
 
+def svalJson (v : SVal) : Json :=
+  Json.mkObj [("text", Json.str v.text), ("digits", match v.digits with | some n => Json.str (toString n) | none => Json.null),
+    ("udigit", Json.bool v.udigit), ("int", match v.intv with | some z => Json.str (toString z) | none => Json.null)]
+
+def svalOfJson (j : Json) : Except String SVal := do
+  let t ← j.getObjValAs? String "text"
+  let d ← (match j.getObjVal? "digits" with
+    | .ok (.str s) => (match s.toNat? with | some n => pure (some n) | none => throw "bad digits")
+    | _ => pure none)
+  let u := (j.getObjValAs? Bool "udigit").toOption.getD false
+  let i ← (match j.getObjVal? "int" with
+    | .ok (.str s) => (match s.toInt? with | some z => pure (some z) | none => throw "bad int")
+    | _ => pure none)
+  pure { text := t, digits := d, udigit := u, intv := i }
+
+partial def tbOfJson (j : Json) : Except String Tb := do
+  match j with
+  | .str "order" => pure .order
+  | .str "unsupported" => pure .unsupported
+  | _ =>
+    match j.getObjVal? "sortitor" with
+    | .ok (.null) => pure (.sortitor none)
+    | .ok v => do pure (.sortitor (some (← fromJson? (α := Nat) v)))
+    | .error _ => do
+      let ok ← j.getObjValAs? Bool "pre"
+      let inner ← tbOfJson (← j.getObjVal? "inner")
+      pure (.pre ok inner)
+
+partial def sysOfJson (j : Json) : Except String Sys := do
+  match j with
+  | .str "other" => pure .other
+  | _ =>
+    match j.getObjVal? "voting" with
+    | .ok v => do pure (.voting (← svalOfJson v) (← sysOfJson (← j.getObjVal? "e")))
+    | .error _ =>
+      match j.getObjVal? "fixed" with
+      | .ok v => do pure (.fixed (← fromJson? (α := Nat) v) (← sysOfJson (← j.getObjVal? "e")))
+      | .error _ =>
+        match j.getObjVal? "tie" with
+        | .ok v => do pure (.tie (← sysOfJson v) (← tbOfJson (← j.getObjVal? "tb")))
+        | .error _ => do
+          let fl ← j.getObjValAs? (List Bool) "tv"
+          let q := (j.getObjValAs? String "quota").toOption
+          let m ← j.getObjValAs? Bool "mandatory"
+          match fl with
+          | [a, b, c] => pure (.tv a b c q m)
+          | _ => throw "bad tv flags"
+
+def summaryJson (s : Summary) : Json :=
+  Json.mkObj [("title", match s.title with | some t => Json.str t | none => Json.null),
+    ("seats", match s.seats with | some z => Json.str (toString z) | none => Json.null),
+    ("quota", match s.quota with | .name n => Json.mkObj [("name", Json.str n)] | .const n => Json.mkObj [("const", Json.str (toString n))]),
+    ("mandatory", Json.bool s.mandatory),
+    ("random", match s.random with | none => Json.null | some none => Json.str "non" | some (some n) => Json.str (toString n))]
+
 def hlineJson : HLine → Json
   | .blank => Json.null
   | .invalid => "invalid"
@@ -217,7 +272,7 @@ def hlineJson : HLine → Json
   | .ballotsBlt => "ballotsBlt"
   | .ballotsBad => "ballotsBad"
   | .order l => Json.mkObj [("order", toJson l)]
-  | .other k v => Json.mkObj [("other", Json.arr #[Json.str k, Json.str v])]
+  | .other k v => Json.mkObj [("other", Json.arr #[Json.str k, svalJson v])]
 
 def hlineOfJson (j : Json) : Except String HLine := do
   match j with
@@ -242,7 +297,7 @@ def hlineOfJson (j : Json) : Except String HLine := do
         | .error _ => do
           let a ← (← j.getObjVal? "other").getArr?
           match a.toList with
-          | [k, v] => do pure (.other (← k.getStr?) (← v.getStr?))
+          | [k, v] => do pure (.other (← k.getStr?) (← svalOfJson v))
           | _ => throw "bad other"
 
 def firstJson : First → Json
@@ -293,17 +348,22 @@ def docOfJson (j : Json) : Except String (Doc Weight) := do
     | _ => throw "bad ballot")
   pure { cands := cands, ballots := ballots }
 
-def loadedJson (r : Doc Rat × List (String × Bool)) : Json :=
-  Json.mkObj [("cands", Json.arr (r.2.map (fun c => Json.arr #[Json.str c.1, Json.bool c.2])).toArray),
-    ("ballots", Json.arr (r.1.ballots.map (fun b => Json.arr #[toJson b.1, ratJson b.2])).toArray)]
+def loadedJson (r : Doc Rat × List (String × Bool) × Summary) : Json :=
+  Json.mkObj [("cands", Json.arr (r.2.1.map (fun c => Json.arr #[Json.str c.1, Json.bool c.2])).toArray),
+    ("ballots", Json.arr (r.1.ballots.map (fun b => Json.arr #[toJson b.1, ratJson b.2])).toArray),
+    ("system", summaryJson r.2.2)]
 
 def handleStv (op : String) (j : Json) : Option (Except String Json) :=
   match op with
   | "stv_dump" => some do
     let d ← docOfJson (← j.getObjVal? "doc")
-    let (h, v) := dumpStv d
-    pure (Json.mkObj [("hdr", Json.arr (h.map hlineJson).toArray), ("votes", Json.arr (v.map vlineJson).toArray),
-      ("loaded", resJson loadedJson (loadStv h v)), ("wf", Json.bool (wfStv d))])
+    let sys ← sysOfJson (← j.getObjVal? "sys")
+    let arg := (j.getObjValAs? Nat "seats_arg").toOption
+    match dumpStv sys arg d with
+    | .error e => pure (Json.mkObj [("dump", errJson e)])
+    | .ok (h, v) =>
+      pure (Json.mkObj [("hdr", Json.arr (h.map hlineJson).toArray), ("votes", Json.arr (v.map vlineJson).toArray),
+        ("loaded", resJson loadedJson (loadStv h v)), ("wf", Json.bool (wfStv d))])
   | "stv_load" => some do
     let h ← (← (← j.getObjVal? "hdr").getArr?).toList.mapM hlineOfJson
     let v ← (← (← j.getObjVal? "votes").getArr?).toList.mapM vlineOfJson
